@@ -255,6 +255,19 @@ def msPath (freq lv : List Nat) (pcs : Bool) (freqMap ma0 : List Nat) (hsn maio 
     let msg ← l1ctlTxDmEstReqH1 maio hsn r.ma r.maLen
     return .sent (r.ma.take r.maLen) msg
 
+/-- The other caller of the decoder, SI4 CBCH (`gsm48_decode_sysinfo4`, sysinfo.c:997, then `try_cbch` of
+misc/app_cbch_sniff.c): `gsm48_decode_mobile_alloc(s->freq, data + 2, data[1], s->hopping, &s->hopp_len, 1)`
+(return code ignored: for `len > 8` list and length keep their previous values), then
+`l1ctl_tx_dm_est_req_h1(ms, s->maio, s->hsn, s->hopping, s->hopp_len, …)` — no conversion loop, no check
+of `hopp_len`.  Result: the new `s->hopping[]`, `s->hopp_len` and the L1CTL hopping parameters. -/
+def cbchPath (freq ie : List Nat) (len : Nat) (hopping : List Nat) (hoppLen : Nat) (hsn maio : Nat) :
+    Except Fault (List Nat × Nat × L1ctlH1) := do
+  match MobileAlloc.decode freq ie len hopping hoppLen true with
+  | .error f => throw (.dec f)
+  | .ok (_, st) =>
+    let msg ← l1ctlTxDmEstReqH1 maio hsn st.hopping st.hoppLen
+    return (st.hopping, st.hoppLen, msg)
+
 /-- trxcon from the L1CTL message to the TRXC socket: return code of `l1ctl_rx_dm_est_req` resp.
 of `trx_if_handle_phyif_cmd`, and the datagrams passed to `send()` -/
 def trxconPath (msg : L1ctlH1) : Except Fault (Int × List (List Nat)) := do
